@@ -45,9 +45,13 @@ for d in demos:
 runre = "^(" + "|".join(names) + ")$"
 rc_w, out_w = sh(f"go test -vet=off -count=1 -run '{runre}' {' '.join(pkgs)} 2>&1 | tail -25", wt)
 res["demo_with_change_fails"] = ("FAIL" in out_w)
-sh("git stash", wt)
+# (no git stash: the stash is shared between all worktrees of a repository)
+open(f"{a.outdir}/.confirm.patch", "w").write(diff)
+sh("git checkout -- .", wt)
 rc_o, out_o = sh(f"go test -vet=off -count=1 -run '{runre}' {' '.join(pkgs)} 2>&1 | tail -25", wt)
-sh("git stash pop", wt)
+rc_a, out_a = sh(f"git apply {a.outdir}/.confirm.patch", wt)
+if rc_a != 0:
+    print("could not re-apply the change:", out_a); sys.exit(3)
 res["demo_without_change_passes"] = ("FAIL" not in out_o and "ok" in out_o)
 res["demo_output_with"] = out_w[-1500:]
 res["demo_output_without"] = out_o[-600:]
